@@ -54,7 +54,7 @@ def _mk(family, schema, **feat):
 def cases(tier, seed):
     out = []
     lat = QUICK_LATTICE if tier == "quick" else LATTICE
-    mults = [None] if tier == "quick" else [None, 2]
+    mults = [None, 1, 2] if tier == "quick" else [None, 1, 2, 3]
     for fmt in FORMATS:
         base = {"type": "integer"}
         if fmt:
@@ -70,7 +70,8 @@ def cases(tier, seed):
                     s = dict(b0)
                     s[k] = v
                     out.append(_mk("bounds", s, fmt=fmt, nb=1))
-            pairs = list(itertools.combinations(BOUND_KEYS, 2))
+            # quick: multipleOf only next to at most one bound keyword
+            pairs = [] if (mult and tier == "quick") else list(itertools.combinations(BOUND_KEYS, 2))
             for (k1, k2) in pairs:
                 for v1 in lat:
                     for v2 in lat:
@@ -316,7 +317,7 @@ def execute(cases_, tier, seed):
     res.extra["chosen_type_histogram"] = chosen_hist
     res.extra["lattice_size"] = len(lat)
     res.samples = [c["schema"] for c in cases_[:: max(1, len(cases_) // 5)]][:5]
-    res.bound = ("tier=%s: formats=%d x <=2 of the 4 bound keywords over the lattice (quick: 33-value lattice, no multipleOf; thorough: 46-value lattice x multipleOf{absent,2}); "
+    res.bound = ("tier=%s: formats=%d x <=2 of the 4 bound keywords over the lattice (quick: 33-value lattice, multipleOf{1,2} next to <=1 bound; thorough: 46-value lattice x multipleOf{absent,1,2,3}); "
                  "default table; string/float format tables; every case probed with all %d lattice integers" % (tier, len(FORMATS), len(lat)))
     res.assumptions = ["schemars parses numeric keywords as f64; the oracle judges the echoed (parsed) numbers",
                        "on a side with neither bound nor recognised format probes are clipped to the i64 range (statement's fallback)"]
